@@ -10,8 +10,8 @@ if ! git -C "$wt" apply "$diff" 2>/dev/null; then
 fi
 git -C "$wt" diff --stat | tail -1
 if [ "$demo" != "-" ]; then
-  (cd "$wt" && PYTHONPATH="$wt" timeout 900 /venv/bin/python -W ignore "$demo" >/var/tmp/seed_${name}_demo_with.log 2>&1; echo "demo with change: exit $?")
-  (cd /repo && PYTHONPATH=/repo timeout 900 /venv/bin/python -W ignore "$demo" >/var/tmp/seed_${name}_demo_without.log 2>&1; echo "demo on /repo HEAD: exit $?")
+  (cd "$wt" && OMP_NUM_THREADS=1 OPENBLAS_NUM_THREADS=1 MKL_NUM_THREADS=1 PYTHONPATH="$wt" timeout 1500 /venv/bin/python -W ignore "$demo" >/var/tmp/seed_${name}_demo_with.log 2>&1; echo "demo with change: exit $?")
+  (cd /repo && OMP_NUM_THREADS=1 OPENBLAS_NUM_THREADS=1 MKL_NUM_THREADS=1 PYTHONPATH=/repo timeout 1500 /venv/bin/python -W ignore "$demo" >/var/tmp/seed_${name}_demo_without.log 2>&1; echo "demo on /repo HEAD: exit $?")
 fi
 cd /verif
 for id in "$@"; do
